@@ -1202,9 +1202,15 @@ impl Operator for FilterOperator {
             }
 
             // Apply predicate to create selection vector
+            // Only rows that survived the operators below are candidates: an incoming
+            // selection (for example from another filter) must be narrowed, not replaced.
             let count = chunk.total_row_count();
-            let selection =
-                SelectionVector::from_predicate(count, |row| self.predicate.evaluate(&chunk, row));
+            let selection = match chunk.selection() {
+                Some(existing) => existing.filter(|row| self.predicate.evaluate(&chunk, row)),
+                None => SelectionVector::from_predicate(count, |row| {
+                    self.predicate.evaluate(&chunk, row)
+                }),
+            };
 
             // If nothing passes, skip to next chunk
             if selection.is_empty() {
